@@ -18,6 +18,7 @@ type Layout struct {
 	NL        string
 	Indent    bool
 	NoFinalNL bool // the text ends with its last token
+	JoinTop   bool // nothing but a space between a definition's closing brace and what follows it
 }
 
 var Layouts = []Layout{
@@ -26,7 +27,8 @@ var Layouts = []Layout{
 	{Name: "oneline", Sep: " ", Soft: "space", NL: "\n", NoFinalNL: true},
 	{Name: "airy", Sep: " \t ", Soft: "blank", NL: "\n", Indent: true},
 	{Name: "tight", Sep: " ", Tight: true, Soft: "none", NL: "\n", NoFinalNL: true},
-	{Name: "gappy", Sep: "  ", Soft: "gaps", NL: "\n", Indent: false}, // three empty lines wherever an empty line may go
+	{Name: "gappy", Sep: "  ", Soft: "gaps", NL: "\n", Indent: false},                                // three empty lines wherever an empty line may go
+	{Name: "joined", Sep: " ", Soft: "line", NL: "\n", Indent: true, JoinTop: true, NoFinalNL: true}, // bodies on several lines, the next definition on the line of the closing brace
 }
 
 func isPunct(t string) bool {
@@ -50,6 +52,22 @@ func Render(tokens []string, l Layout) string {
 		case "\n":
 			if pendingBreak < 1 {
 				pendingBreak = 1
+			}
+			continue
+		case "#":
+			// between definitions
+			if l.JoinTop {
+				continue
+			}
+			switch l.Soft {
+			case "line":
+				if pendingBreak < 1 {
+					pendingBreak = 1
+				}
+			case "blank":
+				pendingBreak = 2
+			case "gaps":
+				pendingBreak = 4
 			}
 			continue
 		case "~", "^", "%":
